@@ -35,14 +35,13 @@ class YowNoiseLayer(YowLayer):
 
     def __init__(self):
         super(YowNoiseLayer, self).__init__()
-        self._wa_noiseprotocol = WANoiseProtocol(
-            4, 0, protocol_state_callbacks=self._on_protocol_state_changed
-        )  # type: WANoiseProtocol
+        self._wa_noiseprotocol = self._create_protocol()  # type: WANoiseProtocol
 
         self._handshake_worker = None
         self._stream = BlockingQueueSegmentedStream()  # type: BlockingQueueSegmentedStream
         self._read_buffer = bytearray()
         self._flush_lock = threading.Lock()
+        self._transport_lock = threading.Lock()
         self._incoming_segments_queue = Queue.Queue()
         self._profile = None
         self._rs = None
@@ -50,9 +49,27 @@ class YowNoiseLayer(YowLayer):
     def __str__(self):
         return "Noise Layer"
 
+    def _create_protocol(self):
+        """
+        The protocol object of one connection; state changes of a protocol object that has been replaced are ignored.
+        """
+        def on_protocol_state_changed(state):
+            if protocol is self._wa_noiseprotocol:
+                self._on_protocol_state_changed(state, protocol)
+        protocol = WANoiseProtocol(4, 0, protocol_state_callbacks=on_protocol_state_changed)
+        return protocol
+
     @EventCallback(YowNetworkLayer.EVENT_STATE_DISCONNECTED)
     def on_disconnected(self, event):
         self._wa_noiseprotocol.reset()
+        # The handshake worker of the connection that just went down may still be running or parked on these
+        # objects. Give the next login fresh ones, so that it can neither consume the next login's segments,
+        # nor write into the next connection, nor leave the protocol state machine in a state that blocks it.
+        with self._transport_lock:
+            self._wa_noiseprotocol = self._create_protocol()
+            self._stream = BlockingQueueSegmentedStream()
+            self._incoming_segments_queue = Queue.Queue()
+            self._flush_lock = threading.Lock()
 
     @EventCallback(YowAuthenticationProtocolLayer.EVENT_AUTH)
     def on_auth(self, event):
@@ -113,12 +130,13 @@ class YowNoiseLayer(YowLayer):
             )
             if not self._in_handshake():
                 logger.debug("Performing handshake [username= %d, passive=%s]" % (username, passive) )
+                protocol = self._wa_noiseprotocol
                 self._handshake_worker = WANoiseProtocolHandshakeWorker(
-                    self._wa_noiseprotocol, self._stream, client_config, local_static, remote_static,
-                    self.on_handshake_finished
+                    protocol, self._stream, client_config, local_static, remote_static,
+                    lambda e=None: self.on_handshake_finished(e) if protocol is self._wa_noiseprotocol else None
                 )
                 logger.debug("Starting handshake worker")
-                self._stream.set_events_callback(self._handle_stream_event)
+                self._stream.set_events_callback(self._create_stream_event_handler(self._stream, self._incoming_segments_queue))
                 self._handshake_worker.start()
 
     def on_handshake_finished(self, e=None):
@@ -138,20 +156,30 @@ class YowNoiseLayer(YowLayer):
         """
         return self._wa_noiseprotocol.state == WANoiseProtocol.STATE_HANDSHAKE
 
-    def _on_protocol_state_changed(self, state):
+    def _on_protocol_state_changed(self, state, protocol=None):
         if state == WANoiseProtocol.STATE_TRANSPORT:
             if self._rs != self._wa_noiseprotocol.rs:
                 config = self._profile.config
                 config.server_static_public = self._wa_noiseprotocol.rs
                 self._profile.write_config(config)
                 self._rs = self._wa_noiseprotocol.rs
-            self._flush_incoming_buffer()
+            self._flush_incoming_buffer(protocol)
 
-    def _handle_stream_event(self, event):
-        if event == BlockingQueueSegmentedStream.EVENT_WRITE:
-            self.toLower(self._stream.get_write_segment())
-        elif event == BlockingQueueSegmentedStream.EVENT_READ:
-            self._stream.put_read_segment(self._incoming_segments_queue.get(block=True))
+    def _create_stream_event_handler(self, stream, incoming_segments_queue):
+        """
+        The handler stays bound to the stream and segments queue of the connection it was created for.
+        """
+        def handle_stream_event(event):
+            if event == BlockingQueueSegmentedStream.EVENT_WRITE:
+                segment = stream.get_write_segment()
+                with self._transport_lock:
+                    if stream is self._stream:
+                        self.toLower(segment)
+                    else:
+                        logger.debug("Dropping a segment written for a connection that is gone")
+            elif event == BlockingQueueSegmentedStream.EVENT_READ:
+                stream.put_read_segment(incoming_segments_queue.get(block=True))
+        return handle_stream_event
 
     def send(self, data):
         """
@@ -166,13 +194,20 @@ class YowNoiseLayer(YowLayer):
             raise ValueError("data too large to write; length=%d" % len(data))
         self._wa_noiseprotocol.send(data)
 
-    def _flush_incoming_buffer(self):
-        self._flush_lock.acquire()
+    def _flush_incoming_buffer(self, for_protocol=None):
+        # work on the objects of one connection throughout, also if the connection is replaced meanwhile
+        with self._transport_lock:
+            if for_protocol is not None and for_protocol is not self._wa_noiseprotocol:
+                return
+            flush_lock = self._flush_lock
+            incoming_segments_queue = self._incoming_segments_queue
+            protocol = self._wa_noiseprotocol
+        flush_lock.acquire()
         try:
-            while self._incoming_segments_queue.qsize():
-                self.toUpper(self._wa_noiseprotocol.receive())
+            while incoming_segments_queue.qsize():
+                self.toUpper(protocol.receive())
         finally:
-            self._flush_lock.release()
+            flush_lock.release()
 
     def receive(self, data):
         """
